@@ -43,6 +43,7 @@ FwdEv ==
           <<ok => Ev.resp.e2e, "C16.ResponseHeadersRelayed">>,
           <<ok => Ev.resp.hopAbsent, "C08.NoHopByHopHeaderInResponse">>,
           <<ok => Ev.resp.bodyEq, "C16.ResponseBodyRelayed">>,
+          <<Ev.mode = "abort_body" => Ev.clienterr # "", "C16.TruncatedBodyNotDeliveredAsComplete">>,
           <<Ev.events = <<"connected", "disconnected">>, "C16.ListenerEventsPaired">> >>)
      /\ drift' = IF ~seen \/ (o.names \ {"X-Forwarded-For"}) = (m.names \ {"X-Forwarded-For"}) THEN drift
                  ELSE Report(drift, scn, l, "forward.Director+ReverseProxy")
